@@ -61,4 +61,14 @@ pub fn ref_layout(insns: &[Insn], ldc_wide: &dyn Fn(usize) -> bool, widen: bool)
     Lay { offs, widened }
 }
 
+/// offsets for a given choice of long-form jumps (no fixpoint)
+pub fn layout_with(insns: &[Insn], ldc_wide: &dyn Fn(usize) -> bool, widened: &[bool]) -> Lay {
+    let n = insns.len();
+    let mut offs = vec![0u32; n + 1];
+    let mut at = 0u32;
+    for i in 0..n { offs[i] = at; at += insn_size(&insns[i], at, matches!(insns[i], Insn::Ldc(_)) && ldc_wide(i), widened[i]); }
+    offs[n] = at;
+    Lay { offs, widened: widened.to_vec() }
+}
+
 pub fn count_jumps(insns: &[Insn]) -> usize { insns.iter().filter(|i| matches!(i, Insn::Branch(..))).count() }
